@@ -499,5 +499,6 @@ func main() {
 	g.legacy(false, false)
 	g.legacy(false, true)
 	g.legacy(true, false)
+	g.legacy(true, true) // an upper-case legacy name next to the canonical (lower-case) file of the same space
 	h.Finish("plot directories (1-3) with 2-8 generated file groups each: valid pairs at every progress, odd-cased / zero-padded / wrong-ordinal / invalid-bit-length / junk names, foreign keys, headers of another key or bit length, wrong code/version/type/hash, truncated headers, map A missing or damaged, duplicates across directories; scanned by the real keeper with the real massdb.v1 backend")
 }
